@@ -127,7 +127,8 @@ func dumpGeometry(f b6.Feature) string {
 			for i := 0; i < n; i++ {
 				b.WriteString(safe(func() string {
 					var pb strings.Builder
-					if paths := a.Feature(i); paths != nil {
+					// (nil and empty both mean "this polygon is not built from paths")
+					if paths := a.Feature(i); len(paths) > 0 {
 						pb.WriteString("paths[")
 						for _, p := range paths {
 							if p == nil {
@@ -435,7 +436,13 @@ func eachDump(w b6.World, goroutines int) string {
 	return s
 }
 
-// Diff returns the keys whose values differ (sorted), limited to max.
+// sectionPriority orders sections from most specific (closest to a root
+// cause) to most derived; Diff sorts differing keys by it so that the first
+// key, which names the violation class, is the most informative one.
+var sectionPriority = map[string]int{"has": 0, "tags": 1, "feat": 2, "loc": 3, "refs": 4, "refs-paths": 4, "rels": 5, "cols": 6, "areas": 7, "find": 8, "eachtags": 9, "each": 10, "trav": 11, "tokens": 12}
+
+// Diff returns the keys whose values differ (by section priority, then
+// name), limited to max.
 func (a Obs) Diff(b Obs, max int) []string {
 	var keys []string
 	for k, v := range a {
@@ -448,17 +455,42 @@ func (a Obs) Diff(b Obs, max int) []string {
 			keys = append(keys, k)
 		}
 	}
-	sort.Strings(keys)
+	sort.Slice(keys, func(i, j int) bool {
+		pi, pj := sectionPriority[section(keys[i])], sectionPriority[section(keys[j])]
+		if pi != pj {
+			return pi < pj
+		}
+		return keys[i] < keys[j]
+	})
 	if len(keys) > max {
 		keys = keys[:max]
 	}
 	return keys
 }
 
+// Without returns a copy of the observation without the given sections.
+func (a Obs) Without(sections ...string) Obs {
+	out := Obs{}
+	for k, v := range a {
+		skip := false
+		for _, s := range sections {
+			if section(k) == s {
+				skip = true
+			}
+		}
+		if !skip {
+			out[k] = v
+		}
+	}
+	return out
+}
+
 // DiffString renders the first differences for a failure detail.
 func (a Obs) DiffString(b Obs, labelA, labelB string) string {
 	keys := a.Diff(b, 6)
 	var sb strings.Builder
+	all := a.Diff(b, 40)
+	fmt.Fprintf(&sb, "differing keys: %s\n", strings.Join(all, ", "))
 	for _, k := range keys {
 		fmt.Fprintf(&sb, "%s:\n  %s: %s\n  %s: %s\n", k, labelA, clipS(a[k], 700), labelB, clipS(b[k], 700))
 	}
